@@ -140,7 +140,7 @@ def fam_api_text(rng, idx, cfg, lists, fmt):
         if not net.get("allowed_species") or all(sp[k] in net["allowed_species"] for k in W.species_of(ar)):
             steps.append({"s": "add_inst", "R": [sp[k] for k in ar["R"]], "P": [sp[k] for k in ar["P"]],
                           "pseudo": [W.CONFIGS[cfg]["pseudo_names"][ar["pseudo"]]] if ar["pseudo"] else [],
-                          "alpha": 7.7e-11, "rtype": ar["rtype"], "idx": 99})
+                          "alpha": 7.7e-11, "rtype": ar["rtype"], "idx": 99, "tmin": rng.choice([10, 10.0, 300]), "tmax": rng.choice([300, 41000, 41000.0])})
             n += 1
     if not net.get("shielding") and rng.random() < 0.2:
         # the shielding table is only reachable through the property (there is no setter): edit it in place
@@ -155,7 +155,10 @@ def fam_api_text(rng, idx, cfg, lists, fmt):
             ar = pool_lines(rng, cfg, 1, "naunet")[0]
             extras.append({"s": "add_inst", "R": [sp[k] for k in ar["R"]], "P": [sp[k] for k in ar["P"]],
                            "pseudo": [W.CONFIGS[cfg]["pseudo_names"][ar["pseudo"]]] if ar["pseudo"] else [],
-                           "alpha": 5.5e-11 + q * 1e-12, "rtype": ar["rtype"], "idx": 200 + q})
+                           "alpha": 5.5e-11 + q * 1e-12, "rtype": ar["rtype"], "idx": 200 + q,
+                           # Python ints, as in Reaction([...], [...], 10, 300): numerically equal to the
+                           # 10.0 / 300.0 the file readers produce, textually different
+                           "tmin": 10 if q == 0 else 10.0, "tmax": 300 if q == 0 else 41000.0})
         if len(names) >= 3:
             # a reaction among species the network already has
             a, b, c = rng.sample(names, 3)
@@ -598,6 +601,8 @@ def perturb(rng, d, k):
         ops += ["elements_order"]
     if n.get("pseudo_elements"):
         ops += ["pseudo_variant"]
+    if any(st["s"] == "add_inst" for st in t["steps"]):
+        ops += ["int_float_temps", "int_float_temps"]
     op = rng.choice(ops)
     files = t.get("files", {})
     if op == "coefficient" and files:
@@ -647,6 +652,12 @@ def perturb(rng, d, k):
         n["cooling"] = n["cooling"][:-1] or n["cooling"]
     elif op == "elements_order":
         n["elements"] = list(reversed(n["elements"]))
+    elif op == "int_float_temps":
+        for st in t["steps"]:
+            if st["s"] == "add_inst":
+                for key in ("tmin", "tmax"):
+                    v = st.get(key, -1.0)
+                    st[key] = int(v) if isinstance(v, float) and v == int(v) else float(v)
     elif op == "pseudo_variant":
         n["pseudo_elements"] = n["pseudo_elements"] + [rng.choice(["XRAY", "M", "g", "X"])]
     elif op == "elements_extra":
